@@ -76,9 +76,9 @@ def jobs(tier, seed):
     big = [t for t in big if muls(t) < 2]
     for i in range(0, len(big), chunk * 2):
         out.append({"id": f"trees3/{i // (chunk * 2):03d}", "fam": "trees", "trees": big[i: i + chunk * 2], "styles": ["min", "sp"], "contexts": ["str", "dl", "if"]})
-    # products of three symbolic values: value context only (branching on them defeats the solver)
+    # products of three symbolic values (decided through the product abstraction of Engine.decide)
     for i in range(0, len(heavy), chunk * 2):
-        out.append({"id": f"trees3m/{i // (chunk * 2):03d}", "fam": "trees", "trees": heavy[i: i + chunk * 2], "styles": ["min"], "contexts": ["str"]})
+        out.append({"id": f"trees3m/{i // (chunk * 2):03d}", "fam": "trees", "trees": heavy[i: i + chunk * 2], "styles": ["min", "sp"], "contexts": ["str", "dl", "if"]})
     maxd = {"dec": 5, "hex": 4, "bin": 6} if tier == "quick" else {"dec": 6, "hex": 5, "bin": 8}
     for base, mx in maxd.items():
         for n in range(1, mx + 1):
@@ -122,6 +122,12 @@ def _syms(cx, names, enumerate_shift=False):
 
 def _term(cx, nm):
     t = cx.t(nm)
+    if nm == "s" and cx.decl[nm][0] == "choice" and cx.symbolic:
+        # enumerated shift amount: the path fixes it; the oracle then shifts by that constant (same
+        # spelling as the implementation's, which received the concrete amount)
+        for k in range(8):
+            if cx.implied(t == k):
+                return B(k)
     return z3.ZeroExt(64 - t.size(), t) if t.size() < 64 else t
 
 
